@@ -213,6 +213,12 @@ func (b *bigmachineExecutor) addInvocation(inv execInvocation) (bool, error) {
 	}
 	// This is the first time we are seeing this invocation.
 
+	// We rewrite arguments below. Do so in a copy: the argument slice is
+	// shared with the task's invocation and with the caller of Session.Run.
+	args := make([]interface{}, len(inv.Args))
+	copy(args, inv.Args)
+	inv.Args = args
+
 	// Each *Result argument represents a dependency on other invocations.
 	// Substitute each *Result argument for an invocationRef so that the
 	// result/dependency may be transported to worker machines. See
